@@ -123,10 +123,10 @@ def judge(est, s, lab, perm):
 
 
 def _work(job):
-    seed, k, big, ests = job
+    seed, k, big, est = job
     s, lab, perm, meta = gen_case(seed, k, big)
     ties = len(np.unique(s)) < len(s)
-    return k, meta, ties, {est: judge(est, s, lab, perm) for est in ests}
+    return k, meta, ties, est, judge(est, s, lab, perm)
 
 
 def runnable(est):
@@ -142,7 +142,7 @@ def runnable(est):
 
 
 def run(tier, seed):
-    n_cases = 48 if tier == "quick" else 600
+    n_cases = 40 if tier == "quick" else 600
     assumptions = ["no oracle for the numerical value of a PEP / q-value (KDE, splines, NNLS): only finiteness, range, "
                    "monotonicity, ties and alignment of the returned vectors are checked, tolerance %g" % TOL,
                    "input domain: two-component normal mixtures with >= 50 targets and >= 50 decoys, location/scale "
@@ -168,12 +168,13 @@ def run(tier, seed):
             + "never decreasing as the score worsens, equal for equal scores, result(permuted input) == permuted "
               "result; non-trivial = the scores contain ties (modes: no ties / all rounded to 0.1 / 40% rounded / all "
               "rounded to 0.01 / best PSM is a decoy)")
-    jobs = [(seed, k, tier != "quick" and k % 4 == 0, tuple(ests)) for k in range(n_cases)]
+    # one job per (case, estimator); the slow estimator (qvality: 0.02 .. 5 s per call) is scheduled first
+    jobs = [(seed, k, tier != "quick" and k % 4 == 0, est) for est in ests for k in range(n_cases)]
     with mp.get_context("fork").Pool(8) as pool:
         results = pool.map(_work, jobs, chunksize=1)
     seen = set()
-    for k, meta, ties, res in results:
-        for est, (cid, what) in res.items():
+    for k, meta, ties, est, (cid, what) in sorted(results, key=lambda r: (r[0], r[3])):
+        if True:
             ck = checks[est]
             ck.case((seed, k, meta), nontrivial=ties)
             if cid and (est, cid) not in seen:
